@@ -15,10 +15,24 @@ fn main() {
     // a sequential in-memory case never blocks on the client; if the library blocks on itself the
     // worker hangs: report that as inconclusive (the scheduled engine decides stalls exactly)
     std::thread::spawn(|| {
-        let limit = std::time::Duration::from_secs(std::env::var("VERIF_HOOK_WATCHDOG_S").ok().and_then(|s| s.parse().ok()).unwrap_or(1500));
-        std::thread::sleep(limit);
-        eprintln!("vhook: watchdog expired (a case blocked inside the library?)");
-        std::process::exit(2);
+        let limit = std::env::var("VERIF_HOOK_WATCHDOG_S").ok().and_then(|s| s.parse().ok()).unwrap_or(25u64);
+        let mut last = vcore::runner::PROGRESS.load(std::sync::atomic::Ordering::Relaxed);
+        let mut idle = 0u64;
+        loop {
+            std::thread::sleep(std::time::Duration::from_secs(1));
+            let now = vcore::runner::PROGRESS.load(std::sync::atomic::Ordering::Relaxed);
+            if now == last {
+                idle += 1;
+            } else {
+                idle = 0;
+                last = now;
+            }
+            if idle >= limit {
+                eprintln!("vhook: no case finished for {} s: a case blocked inside the library (a connection that blocks on itself is decided by the scheduled engine)", limit);
+                println!("INCONCLUSIVE: vhook watchdog, no progress for {} s", limit);
+                std::process::exit(2);
+            }
+        }
     });
     let found = props_mem::parts(&cli);
     match found {
